@@ -109,6 +109,9 @@ var emGlobals = []string{
 	"interface{ io.Reader; io.Writer }", "interface{ Read(p []byte) (int, error); Write(p []byte) (int, error) }", "interface{ io.ReadWriter }",
 	"interface{ R }", "interface{ Read(p []byte) (n int, err error) }", "interface{ String() string }", "interface{ St }", "interface{ Error() string }",
 	"interface{ error }", "interface{ interface{} }", "G1[*strings.Reader]", "G2[int]", "G2[P]", "G2[*int]", "[]G2[P]", "[]G2[*int]",
+	// instantiations of a generic type of another package, next to a non-generic type of that package
+	"atomic.Pointer[int]", "atomic.Pointer[string]", "atomic.Pointer[P]", "*atomic.Pointer[int]", "[]atomic.Pointer[int]", "atomic.Int64", "*atomic.Int64",
+	"G2[atomic.Pointer[int]]", "atomic.Pointer[atomic.Pointer[int]]",
 }
 
 // variable-free patterns (Go type expressions at the same time) for Type.Is / Type.Underlying().Is
@@ -164,7 +167,9 @@ var emVarPats = []struct {
 var emIfaces = []string{"io.Reader", "io.Writer", "io.WriterTo", "fmt.Stringer", "error", "io.ReadWriter"}
 var emMethods = []string{"io.WriterTo.WriteTo", "io.Reader.Read", "fmt.Stringer.String"}
 var emCustomIfaces = []string{"io.Reader", "io.WriterTo", "fmt.Stringer"}
-var emCustomTypes = []string{"bytes.Buffer", "io.Reader", "strings.Reader"}
+// ... `sync/atomic.Pointer` is a GENERIC type: ctx.GetType gives the generic type itself (no type arguments), which is identical
+// to none of its instantiations
+var emCustomTypes = []string{"bytes.Buffer", "io.Reader", "strings.Reader", "sync/atomic.Pointer", "sync/atomic.Int64"}
 
 // same-printing-but-different types: every scope is a function of its own
 func emScopes() []emScope {
@@ -341,7 +346,7 @@ func emMatrix(tmp string, seed int64) *emOut {
 	}
 	render := func(order []int) (string, []string) {
 		var b strings.Builder
-		b.WriteString("package target\n\nimport (\n\t\"bytes\"\n\t\"fmt\"\n\t\"io\"\n\t\"os\"\n\t\"strings\"\n)\n\nvar _ = os.Stdin\nvar _ strings.Reader\n")
+		b.WriteString("package target\n\nimport (\n\t\"bytes\"\n\t\"fmt\"\n\t\"io\"\n\t\"os\"\n\t\"strings\"\n\t\"sync/atomic\"\n)\n\nvar _ = os.Stdin\nvar _ strings.Reader\n")
 		b.WriteString(emDecls)
 		for k, r := range rules {
 			if r.Kind == "identicalTo" {
